@@ -17,6 +17,7 @@ import QV.Model.Batching
 import QV.Lemmas.Batching
 import QV.Model.CallForm
 import QV.Lemmas.CallForm
+import QV.Lemmas.ArgConv
 
 namespace QV.Props
 namespace C07
@@ -654,6 +655,59 @@ example : ∃ z out, epochBatches (ρ := Nat) [10, 20, 10] (some [["Z", "Z"], ["
 /-- the hypothesis of `C07_no_mutation` is satisfiable -/
 example : ∃ h' refs, epochOnHeap (ρ := Nat) ⟨[.samples [10, 20, 10], .bases [["Z"], ["X"], ["Z"]]]⟩ 0 (some 1) 2 none
     [2, 0, 1] [1, 0, 0, 1] = .ok (h', refs) := ⟨_, _, rfl⟩
+
+
+/-! ## Extension round 2 (code inside the model): `fit`'s conversion of the caller's data object
+
+`ArgConv.fitConvertData` models `neural_state.py:575-580` on a heap of storages: `data.clone().detach().to(device, dtype=double)` for a
+torch tensor, `torch.tensor(data, device, dtype=double)` for everything else (numpy array, nested list / tuple), with torch's allocation
+behaviour. `ArgConv.fitPrepareArg` is the data preamble of `fit` from the caller's OBJECT on (`Batching.prepare` reads the rows of the
+converted tensor's storage). `input_bases` is not converted by the code (kept by reference: proposed/O23_C07_bases_live.md). -/
+
+open ArgConv in
+/-- **C07.7** for EVERY accepted container form of the data (torch tensor or numpy array of any element type — double, float, int64,
+uint8, bool, … —, rectangular nested list of Python bools / ints / floats / numpy scalars) `fit` trains on a tensor `train_samples`
+* of element type double whose rows are exactly the caller's rows at the time of the call (the target type is handed to
+  `torch.tensor` / reached by a widening `.to`: no rounding on the way, whatever torch's default dtype is);
+* in a storage that did not exist before the call, while no storage of the caller is written — so whatever the caller later writes
+  in place into ANY of its storages (a buffer re-used for the next acquisition while `fit` is running), the rows `fit` batches are
+  still the rows it was given;
+* and everything `fit` derives from the data (`Batching.prepare`: `z_samples`, `num_batches`, hence `C07_fit_epoch`) is what the
+  batching theorems state for those rows.
+A ragged list or an object that is not array-like is refused. -/
+theorem C07_train_samples_value {ρ : Type} (castRow : DType → ρ → ρ) (hc : ∀ r, castRow .float64 r = r) (dd : Bool)
+    (h : ArgConv.Heap (List ρ)) (o : Obj) :
+    (∀ src rows, srcDType o.box = some src → h.read o.sid = some rows →
+      ∃ h' t, fitConvertData (castRows castRow) dd h o = .ok (h', t) ∧
+        (∀ i, i < h.cells.length → h'.read i = h.read i) ∧
+        h.cells.length ≤ t.sid ∧ t.dt = .float64 ∧ h'.read t.sid = some rows ∧
+        (∀ i, i < h.cells.length → ∀ w, (h'.write i w).read t.sid = some rows) ∧
+        (∀ bases posB negB, fitPrepareArg castRow dd h o bases posB negB
+          = (prepare rows bases posB negB).map (fun p => (h', t, p)))) ∧
+    (srcDType o.box = none → ∀ bases posB negB, ∃ e, fitPrepareArg castRow dd h o bases posB negB = .error e) := by
+  have hcl : ∀ v : List ρ, castRows castRow DType.float64 v = v := by
+    intro v; rw [castRows, show castRow DType.float64 = id from funext hc]; simp
+  refine ⟨?_, ?_⟩
+  · intro src rows hsrc hv
+    obtain ⟨h', t, e, f, d⟩ := fitConvertData_spec (castRows castRow) hcl dd hsrc hv
+    refine ⟨h', t, e, fun i hi => read_of_prefix f.ext hi, f.fresh, d, f.val, ?_, ?_⟩
+    · intro i hi w
+      rw [write_read_ne _ (by have := f.fresh; omega)]
+      exact f.val
+    · intro bases posB negB
+      simp only [fitPrepareArg, e, f.val, bind, Except.bind]
+      cases prepare rows bases posB negB <;> rfl
+  · intro hb bases posB negB
+    obtain ⟨e, he⟩ := fitConvertData_refused (castRows castRow) dd h o hb
+    exact ⟨e, by simp [fitPrepareArg, he, bind, Except.bind]⟩
+
+/-- the hypotheses are satisfiable by non-trivial calls: a uint8 tensor, a float32 numpy array and a list of Python ints, in a heap that
+holds other objects too; the result lives in a new storage (index 2) -/
+example : (ArgConv.fitConvertData (fun _ (rs : List (List Nat)) => rs) false ⟨[[[0, 1], [1, 1], [0, 1]], [[9]]]⟩ ⟨.tensor .uint8, 0⟩).toOption.map
+    (fun r => (r.2, r.1.cells)) = some (⟨3, .float64⟩, [[[0, 1], [1, 1], [0, 1]], [[9]], [[0, 1], [1, 1], [0, 1]], [[0, 1], [1, 1], [0, 1]]]) := rfl
+example : (ArgConv.fitConvertData (fun _ (rs : List (List Nat)) => rs) false ⟨[[[0, 1], [1, 1], [0, 1]], [[9]]]⟩ ⟨.ndarray .float32, 0⟩).toOption.map
+    (fun r => r.2) = some ⟨2, .float64⟩ := rfl
+example : ArgConv.fitConvertData (fun _ (rs : List (List Nat)) => rs) false ⟨[[[0, 1], [1]]]⟩ ⟨.ragged, 0⟩ = .error .ValueError := rfl
 
 end C07
 end QV.Props
